@@ -12,15 +12,24 @@ import Mathlib.Tactic.Positivity
 
 Theorems about the executable model `HcipyVerif/Model/Coronagraph.lean`.
 
-* Perfect coronagraph (`perfect_coronagraph.py`).  The model's operator is exact Gram–Schmidt on
-  the sampled modes; the theorems hold for *every* list of modes (linearly dependent or not),
-  every aperture, every grid and every order, over any ordered field (run at `ℚ`, read at `ℝ`).
-  What is modelled, not proved: that LAPACK's QR followed by the truncated-SVD pseudo-inverse
-  yields this operator — checked by the correspondence on every run.  Complex fields are the
-  pair (real part, imaginary part) of vectors; the operator acts on each (real modes).
+* Perfect coronagraph (`perfect_coronagraph.py`), two models, both run by the driver.
+  (a) `perfect`: exact Gram–Schmidt on the sampled modes; the `perfect_*` theorems hold for every
+  list of modes over any ordered field (run at `ℚ`, read at `ℝ`).  For linearly *dependent* modes
+  this is a statement about the model only (`0/0 = 0` makes a dependent step the identity, LAPACK's
+  QR completes the basis with arbitrary directions): the harness compares (a) with the code only
+  when the model finds full rank.
+  (b) `perfectMat T T⁺ c E = E − T (c ∘ (T⁺ E))` (round 4): the expression `forward` evaluates, for
+  arbitrary matrices; the `perfectMat_*` theorems derive the clauses from three decidable
+  predicates (`LeftInv`, `WAdjoint`, `NullsModes`) that the driver evaluates on the real object's
+  matrices on every run — dependent modes, complex apertures (real `2n × 2k` form), weighted
+  grids and user-supplied `coeffs` included.  What stays an assumption is only that these
+  predicates hold up to rounding (1e-9) for what LAPACK returns; their defects are reported.
+  Complex fields are the pair (real part, imaginary part) of vectors.
 * Lyot coronagraphs (`lyot.py`): identities of the forward algebra for arbitrary matrices `F`, `B`
   over any commutative ring (run at the Gaussian rationals).
-* Multi-scale coronagraphs (`multi_scale.py`, `vortex.py`): level bookkeeping.  The clause
+* Multi-scale coronagraphs (`multi_scale.py`, `vortex.py`): level bookkeeping, and (round 4) the
+  algebra of the constructor's mask recursion and of `forward` on arbitrary linear stand-ins for
+  the Fourier operators (telescoping on nested supports, wavelength bookkeeping).  The clause
   "< 1 % on axis, > 50 % at 10 λ/D" is a statement about discretisation error with no identity
   behind it: it is **not decided by any theorem here**; the harness measures it.
 -/
@@ -586,30 +595,32 @@ theorem multiscale_wavelength_bad_counterexample :
 
 end MultiScaleAlgebra
 
-/-! ## the perfect coronagraph for an arbitrary orthonormal family (real or complex)
+/-! ## `Spec`: the projector of an arbitrary orthonormal family (free-standing mathematics)
 
-What the code literally computes is `E − T (T⁺ E)` with `T` the matrix returned by QR.  For *any*
-finite orthonormal family `v` (the columns of `T`; `T⁺ = Tᴴ`) in *any* real or complex
-inner-product space — so also for complex apertures — the three clauses hold; the middle one is
-Bessel's inequality.  "QR returns orthonormal columns whose span contains the modes" is the
-modelled assumption; the correspondence checks its consequences on every run. -/
+For *any* finite orthonormal family `v` in *any* real or complex inner-product space the three
+clauses hold for `x ↦ x − Σ ⟪v i, x⟫ v i`; the last one is Bessel's inequality.  These statements
+speak about `projectOut`, a specification no driver runs: they are background, **not** evidence
+about the code (namespace `Spec` says so).  What carries the clauses for the code — complex
+apertures included, through the real `2n × 2k` form of the matrices — are the `perfectMat_*`
+theorems above, whose hypotheses `LeftInv` / `WAdjoint` / `NullsModes` are evaluated by the driver
+on the real object's `transformation` and `transformation_inverse` on every run. -/
 section Abstract
 variable {𝕜 E ι : Type*} [RCLike 𝕜] [NormedAddCommGroup E] [InnerProductSpace 𝕜 E] [Fintype ι]
 
-theorem orthonormal_nulls_span {v : ι → E} (hv : Orthonormal 𝕜 v) (x : E)
+theorem Spec.orthonormal_nulls_span {v : ι → E} (hv : Orthonormal 𝕜 v) (x : E)
     (hx : x ∈ Submodule.span 𝕜 (Set.range v)) : projectOut (𝕜 := 𝕜) v x = 0 := by
   obtain ⟨c, rfl⟩ := (Submodule.mem_span_range_iff_exists_fun 𝕜).1 hx
   unfold projectOut
   simp only [hv.inner_right_fintype, sub_self]
 
-theorem orthonormal_idempotent {v : ι → E} (hv : Orthonormal 𝕜 v) (x : E) :
+theorem Spec.orthonormal_idempotent {v : ι → E} (hv : Orthonormal 𝕜 v) (x : E) :
     projectOut (𝕜 := 𝕜) v (projectOut (𝕜 := 𝕜) v x) = projectOut (𝕜 := 𝕜) v x := by
   have h : ∀ i, inner 𝕜 (v i) (projectOut (𝕜 := 𝕜) v x) = 0 := inner_projectOut hv x
   generalize projectOut (𝕜 := 𝕜) v x = r at h ⊢
   unfold projectOut
   simp only [h, zero_smul, Finset.sum_const_zero, sub_zero]
 
-theorem orthonormal_power_le {v : ι → E} (hv : Orthonormal 𝕜 v) (x : E) :
+theorem Spec.orthonormal_power_le {v : ι → E} (hv : Orthonormal 𝕜 v) (x : E) :
     ‖projectOut (𝕜 := 𝕜) v x‖ ≤ ‖x‖ := by
   set r := projectOut (𝕜 := 𝕜) v x with hr
   set y := ∑ i, inner 𝕜 (v i) x • v i with hy
